@@ -139,15 +139,15 @@ structure Inv (fs : FS) (target : String) (Q : Option Bytes → Prop) (last : Op
     holds a complete earlier snapshot (`Q`) or the complete new one — never a
     torn or mixed file; and when all executed directory operations are
     persisted it is the last completed snapshot or the new one. -/
-theorem crash_any_point_loads_old_or_new (fs0 : FS) (tmp target : String) (chunks : List Bytes)
+theorem crash_any_point_loads_old_or_new (fs0 : FS) (tmp target : String) (trunc : Bool) (chunks : List Bytes)
     (Q : Option Bytes → Prop) (last : Option Bytes)
     (hne : tmp ≠ target) (hfresh : fs0.dirNow.get tmp = none) (hinv : Inv fs0 target Q last)
     (i j m : Nat) :
-    let fs := run fs0 ((snapshotOps tmp target chunks).take i)
+    let fs := run fs0 ((snapshotOps tmp trunc target chunks).take i)
     let r := crashRead fs j m target
     (Q r ∨ r = some chunks.flatten) ∧ (fs.log.length ≤ j → r = last ∨ r = some chunks.flatten) := by
   intro fs r
-  rcases crash_point_cases fs0 tmp target chunks hne hfresh hinv.wf i j m with ⟨j', hj', hr⟩ | hr
+  rcases crash_point_cases fs0 tmp target trunc chunks hne hfresh hinv.wf i j m with ⟨j', hj', hr⟩ | hr
   · refine ⟨Or.inl ?_, fun hj => Or.inl ?_⟩
     · show Q (crashRead fs j m target)
       rw [hr]; exact hinv.weak j' m
@@ -156,32 +156,32 @@ theorem crash_any_point_loads_old_or_new (fs0 : FS) (tmp target : String) (chunk
   · exact ⟨Or.inr hr, fun _ => Or.inr hr⟩
 
 /-- a completed snapshot re-establishes the invariant with the new content as `last` -/
-theorem snapshot_preserves (fs0 : FS) (tmp target : String) (chunks : List Bytes)
+theorem snapshot_preserves (fs0 : FS) (tmp target : String) (trunc : Bool) (chunks : List Bytes)
     (Q : Option Bytes → Prop) (last : Option Bytes)
     (hne : tmp ≠ target) (hfresh : fs0.dirNow.get tmp = none) (hinv : Inv fs0 target Q last) :
-    Inv (run fs0 (snapshotOps tmp target chunks)) target (fun r => Q r ∨ r = some chunks.flatten)
+    Inv (run fs0 (snapshotOps tmp trunc target chunks)) target (fun r => Q r ∨ r = some chunks.flatten)
       (some chunks.flatten) := by
-  obtain ⟨hwf, hstrong, _⟩ := after_snapshot fs0 tmp target chunks hne hfresh hinv.wf
+  obtain ⟨hwf, hstrong, _⟩ := after_snapshot fs0 tmp target trunc chunks hne hfresh hinv.wf
   refine ⟨hwf, ?_, hstrong⟩
   intro j m
-  have := (crash_any_point_loads_old_or_new fs0 tmp target chunks Q last hne hfresh hinv
-            (snapshotOps tmp target chunks).length j m).1
+  have := (crash_any_point_loads_old_or_new fs0 tmp target trunc chunks Q last hne hfresh hinv
+            (snapshotOps tmp trunc target chunks).length j m).1
   simpa using this
 
-/-- a whole history of maintenance / shutdown snapshots -/
-def runAll (fs : FS) (target : String) : List (String × List Bytes) → FS
+/-- a whole history of completed maintenance / shutdown snapshots (open flag `trunc`, whatever it is) -/
+def runAll (trunc : Bool) (fs : FS) (target : String) : List (String × List Bytes) → FS
   | [] => fs
-  | (tmp, chunks) :: rest => runAll (run fs (snapshotOps tmp target chunks)) target rest
+  | (tmp, chunks) :: rest => runAll trunc (run fs (snapshotOps tmp trunc target chunks)) target rest
 
 def lastOf (last : Option Bytes) : List (String × List Bytes) → Option Bytes
   | [] => last
   | (_, chunks) :: rest => lastOf (some chunks.flatten) rest
 
-theorem history_inv (target : String) (snaps : List (String × List Bytes)) :
+theorem history_inv (trunc : Bool) (target : String) (snaps : List (String × List Bytes)) :
     ∀ (fs0 : FS) (Q : Option Bytes → Prop) (last : Option Bytes),
     (∀ s ∈ snaps, s.1 ≠ target ∧ fs0.dirNow.get s.1 = none) → Inv fs0 target Q last →
-    Inv (runAll fs0 target snaps) target (fun r => Q r ∨ ∃ s ∈ snaps, r = some s.2.flatten) (lastOf last snaps) ∧
-    (∀ q, q ≠ target → fs0.dirNow.get q = none → (runAll fs0 target snaps).dirNow.get q = none) := by
+    Inv (runAll trunc fs0 target snaps) target (fun r => Q r ∨ ∃ s ∈ snaps, r = some s.2.flatten) (lastOf last snaps) ∧
+    (∀ q, q ≠ target → fs0.dirNow.get q = none → (runAll trunc fs0 target snaps).dirNow.get q = none) := by
   induction snaps with
   | nil =>
     intro fs0 Q last _ hinv
@@ -190,10 +190,10 @@ theorem history_inv (target : String) (snaps : List (String × List Bytes)) :
     intro fs0 Q last hfresh hinv
     obtain ⟨tmp, chunks⟩ := s
     have h1 := hfresh (tmp, chunks) (by simp)
-    have hpres := snapshot_preserves fs0 tmp target chunks Q last h1.1 h1.2 hinv
-    obtain ⟨_, _, hkeep⟩ := after_snapshot fs0 tmp target chunks h1.1 h1.2 hinv.wf
+    have hpres := snapshot_preserves fs0 tmp target trunc chunks Q last h1.1 h1.2 hinv
+    obtain ⟨_, _, hkeep⟩ := after_snapshot fs0 tmp target trunc chunks h1.1 h1.2 hinv.wf
     have hfresh' : ∀ s ∈ snaps, s.1 ≠ target ∧
-        (run fs0 (snapshotOps tmp target chunks)).dirNow.get s.1 = none := by
+        (run fs0 (snapshotOps tmp trunc target chunks)).dirNow.get s.1 = none := by
       intro s hs
       have := hfresh s (by simp [hs])
       exact ⟨this.1, hkeep s.1 this.1 this.2⟩
@@ -212,19 +212,19 @@ theorem history_inv (target : String) (snaps : List (String × List Bytes)) :
     of *some* completed snapshot (or what was there before the first) or of the
     one in progress; under "rename durable on return" exactly the last completed
     one or the one in progress. -/
-theorem crash_history (fs0 : FS) (target : String) (done : List (String × List Bytes))
+theorem crash_history (trunc : Bool) (fs0 : FS) (target : String) (done : List (String × List Bytes))
     (tmp : String) (chunks : List Bytes) (Q : Option Bytes → Prop) (last : Option Bytes)
     (hinv : Inv fs0 target Q last)
     (hfresh : ∀ s ∈ (tmp, chunks) :: done, s.1 ≠ target ∧ fs0.dirNow.get s.1 = none)
     (i j m : Nat) :
-    let fs := run (runAll fs0 target done) ((snapshotOps tmp target chunks).take i)
+    let fs := run (runAll trunc fs0 target done) ((snapshotOps tmp trunc target chunks).take i)
     let r := crashRead fs j m target
     (Q r ∨ (∃ s ∈ done, r = some s.2.flatten) ∨ r = some chunks.flatten) ∧
     (fs.log.length ≤ j → r = lastOf last done ∨ r = some chunks.flatten) := by
   intro fs r
-  obtain ⟨hI, hK⟩ := history_inv target done fs0 Q last (fun s hs => hfresh s (by simp [hs])) hinv
+  obtain ⟨hI, hK⟩ := history_inv trunc target done fs0 Q last (fun s hs => hfresh s (by simp [hs])) hinv
   have h1 := hfresh (tmp, chunks) (by simp)
-  have := crash_any_point_loads_old_or_new (runAll fs0 target done) tmp target chunks _ _
+  have := crash_any_point_loads_old_or_new (runAll trunc fs0 target done) tmp target trunc chunks _ _
     h1.1 (hK tmp h1.1 h1.2) hI i j m
   obtain ⟨ha, hb⟩ := this
   refine ⟨?_, hb⟩
@@ -256,29 +256,29 @@ theorem initial_inv (target : String) (old : Option Bytes) :
     · intro j m _; simp [initial, crashRead, FS.dirAt, Dir.get, List.take_of_length_le]
 
 /-- the statement in its plainest form: one snapshot over a settled disk -/
-theorem crash_old_or_new (target tmp : String) (old : Option Bytes) (chunks : List Bytes)
+theorem crash_old_or_new (target tmp : String) (trunc : Bool) (old : Option Bytes) (chunks : List Bytes)
     (hne : tmp ≠ target) (i j m : Nat) :
-    crashRead (run (initial target old) ((snapshotOps tmp target chunks).take i)) j m target = old ∨
-    crashRead (run (initial target old) ((snapshotOps tmp target chunks).take i)) j m target = some chunks.flatten := by
+    crashRead (run (initial target old) ((snapshotOps tmp trunc target chunks).take i)) j m target = old ∨
+    crashRead (run (initial target old) ((snapshotOps tmp trunc target chunks).take i)) j m target = some chunks.flatten := by
   have hfresh : (initial target old).dirNow.get tmp = none := by
     cases old <;> simp [initial, FS.dirNow, Dir.get, Ne.symm hne]
-  exact (crash_any_point_loads_old_or_new _ tmp target chunks _ _ hne hfresh (initial_inv target old) i j m).1
+  exact (crash_any_point_loads_old_or_new _ tmp target trunc chunks _ _ hne hfresh (initial_inv target old) i j m).1
 
 /-! ### the order matters: the same model condemns the obvious wrong orders -/
 
 /-- rename before fsync: a crash after the rename keeps an arbitrary prefix of the new file -/
 theorem rename_before_fsync_torn :
-    crashRead (run (initial "f" (some [1, 1])) [.create "t", .write [2, 3, 4], .rename "t" "f"]) 2 1 "f"
+    crashRead (run (initial "f" (some [1, 1])) [.create "t" true, .write [2, 3, 4], .rename "t" "f"]) 2 1 "f"
       = some [2] := by decide
 
 /-- fsync dropped: the same, even after the run has finished -/
 theorem no_fsync_torn :
-    crashRead (run (initial "f" (some [1, 1])) [.create "t", .write [2, 3, 4], .close, .rename "t" "f"]) 2 0 "f"
+    crashRead (run (initial "f" (some [1, 1])) [.create "t" true, .write [2, 3, 4], .close, .rename "t" "f"]) 2 0 "f"
       = some [] := by decide
 
 /-- writing the target in place: a crash right after the open has lost the old snapshot -/
 theorem in_place_torn :
-    crashRead (run (initial "f" (some [1, 1])) [.create "f"]) 0 0 "f" = some [] := by decide
+    crashRead (run (initial "f" (some [1, 1])) [.create "f" true]) 0 0 "f" = some [] := by decide
 
 /-! ## Part 3 — the loader and its own files -/
 
@@ -287,28 +287,28 @@ theorem in_place_torn :
     or the complete new state.  Hypothesis `Good` contains the restriction that
     makes this partial: every record fits protodelim's `MaxSize`. -/
 theorem never_refuses_own_file_partial {M} (c : Codec M) (maxSize : Nat)
-    (target tmp : String) (oldS newS : List M) (chunks : List Bytes)
+    (target tmp : String) (trunc : Bool) (oldS newS : List M) (chunks : List Bytes)
     (hold : ∀ m ∈ oldS, Good c maxSize m) (hnew : ∀ m ∈ newS, Good c maxSize m)
     (hchunks : chunks.flatten = encodeState c newS)
     (hne : tmp ≠ target) (i j m : Nat) :
     match crashRead (run (initial target (some (encodeState c oldS)))
-            ((snapshotOps tmp target chunks).take i)) j m target with
+            ((snapshotOps tmp trunc target chunks).take i)) j m target with
     | none => False
     | some bytes => decodeState c maxSize bytes = .ok oldS ∨ decodeState c maxSize bytes = .ok newS := by
-  rcases crash_old_or_new target tmp (some (encodeState c oldS)) chunks hne i j m with h | h
+  rcases crash_old_or_new target tmp trunc (some (encodeState c oldS)) chunks hne i j m with h | h
   · rw [h]; left; exact decode_encode c maxSize oldS hold
   · rw [h, hchunks]; right; exact decode_encode c maxSize newS hnew
 
 /-- first start: no file, or the complete new state -/
 theorem never_refuses_first_snapshot {M} (c : Codec M) (maxSize : Nat)
-    (target tmp : String) (newS : List M) (chunks : List Bytes)
+    (target tmp : String) (trunc : Bool) (newS : List M) (chunks : List Bytes)
     (hnew : ∀ m ∈ newS, Good c maxSize m)
     (hchunks : chunks.flatten = encodeState c newS)
     (hne : tmp ≠ target) (i j m : Nat) :
-    match crashRead (run (initial target none) ((snapshotOps tmp target chunks).take i)) j m target with
+    match crashRead (run (initial target none) ((snapshotOps tmp trunc target chunks).take i)) j m target with
     | none => True
     | some bytes => decodeState c maxSize bytes = .ok newS := by
-  rcases crash_old_or_new target tmp none chunks hne i j m with h | h
+  rcases crash_old_or_new target tmp trunc none chunks hne i j m with h | h
   · rw [h]; trivial
   · rw [h, hchunks]; exact decode_encode c maxSize newS hnew
 
@@ -353,6 +353,6 @@ example : Good rawCodec defaultMaxSize [1, 2, 3] :=
 example : Inv (initial "nflog" (some [3, 1, 2, 3])) "nflog" (fun r => r = some [3, 1, 2, 3]) (some [3, 1, 2, 3]) :=
   initial_inv _ _
 
-example : (crashPoints true (initial "f" (some [1])) (snapshotOps "t" "f" [[2, 3]])).length = 16 := by decide
+example : (crashPoints true (initial "f" (some [1])) (snapshotOps "t" true "f" [[2, 3]])).length = 16 := by decide
 
 end AM.CrashFS
